@@ -358,6 +358,8 @@ class InterpBase:
                  "typing.Sequence": "Sequence", "types.FrameType": "frame"}
         if dotted in alias:
             return self.class_term(self.table.id(alias[dotted]))
+        if dotted.endswith("ResponseType.NO_CHANGE") or dotted.endswith("ResponseType.UPDATE"):
+            return Val.VInt(z3.Int("ResponseType_" + dotted.split(".")[-1]))      # protobuf enum constants
         if dotted in ("sys.exec_prefix", "sys.prefix", "os.sep"):
             return Val.VStr(z3.String(dotted.replace(".", "_")))      # text constants of the interpreter
         return self.st_register_cached(("extern", dotted), lambda: ExternObj(dotted))
